@@ -21,6 +21,7 @@ func init() {
 			c06R5(c, "C06.R5")
 			ruleMetaSlot(c, "C06.R6")
 			ruleFileWriterAllowList(c, "C06.R7")
+			ruleRollbackUndoesFrees(c, "C06.R8")
 		},
 		CHA: func(c *Ctx) {
 			ruleFreeSetEntry(c, "C06.R3")
